@@ -232,18 +232,34 @@ func run(r *report.Run, shard, nshards int, replayFile string) {
 			devs = append(devs, dev{Gov: g.Name, Value: v, Kind: "gov", Mode: "setup"})
 		}
 	}
-	for _, l := range order {
+	// value-major order: every field gets its first hostile value before any field gets its second, so
+	// that a deadline cap thins the value alphabet evenly instead of dropping the last fields altogether
+	perLeaf := make([][]dev, len(order))
+	rounds := 0
+	for li, l := range order {
 		vals := hostile(l.Kind, r.Thorough())
 		if l.Kind == "bytes" && strings.HasSuffix(l.Field, "SerializedReceipt") {
 			// well-formed but unusual receipts: the decoders accept them, the attesters must cope
 			vals = append(vals, "rcpt:anon-log-first", "rcpt:no-logs", "rcpt:status-0", "rcpt:log-no-data")
 		}
 		for _, val := range vals {
-			devs = append(devs, dev{MsgType: l.MsgType, Field: l.Field, Kind: l.Kind, Value: val, Mode: "first-block"})
+			perLeaf[li] = append(perLeaf[li], dev{MsgType: l.MsgType, Field: l.Field, Kind: l.Kind, Value: val, Mode: "first-block"})
+		}
+		for _, val := range vals {
 			// structured receipt variants mean different things for different message kinds (the first
 			// block only has a logic call): they are also applied to every occurrence in the quick tier
 			if r.Thorough() || strings.HasPrefix(val, "rcpt:") {
-				devs = append(devs, dev{MsgType: l.MsgType, Field: l.Field, Kind: l.Kind, Value: val, Mode: "all"})
+				perLeaf[li] = append(perLeaf[li], dev{MsgType: l.MsgType, Field: l.Field, Kind: l.Kind, Value: val, Mode: "all"})
+			}
+		}
+		if len(perLeaf[li]) > rounds {
+			rounds = len(perLeaf[li])
+		}
+	}
+	for k := 0; k < rounds; k++ {
+		for li := range perLeaf {
+			if k < len(perLeaf[li]) {
+				devs = append(devs, perLeaf[li][k])
 			}
 		}
 	}
